@@ -812,6 +812,9 @@ func report(repo, prop, tier string, results []*WorkerResult, hfs []harnessFile,
 	inconclusive, unsupported := 0, 0
 	exhausted := true
 	proved, concrete := 0, 0
+	reachByHarness := map[string]int{}
+	unsupByHarness := map[string]string{}
+	vacReported := map[string]bool{}
 	for k, r := range results {
 		h := sel[k]
 		if r.Error != "" {
@@ -847,8 +850,9 @@ func report(repo, prop, tier string, results []*WorkerResult, hfs []harnessFile,
 				samples = append(samples, map[string]interface{}{"harness": r.Harness, "witness_model": s})
 			}
 		}
-		if nreach == 0 && len(r.Candidates) == 0 {
-			machinery = append(machinery, fmt.Sprintf("%s: vacuous — no assertion reached on any path (paths=%d kinds=%v unsupported=%v)", h.name, r.Paths, r.PathsByKind, r.Unsupported))
+		reachByHarness[h.name] += nreach + len(r.Candidates)
+		if nreach == 0 && len(r.Candidates) == 0 && len(r.Unsupported) > 0 {
+			unsupByHarness[h.name] = fmt.Sprint(r.Unsupported)
 		}
 		harnessSummaries = append(harnessSummaries, map[string]interface{}{
 			"harness": r.Harness, "fixed": r.Fix, "shard": r.Shard, "decided_by_path_facts": r.FactHits, "paths": r.Paths, "paths_by_kind": r.PathsByKind, "dfs_exhausted": r.Exhausted,
@@ -915,7 +919,20 @@ func report(repo, prop, tier string, results []*WorkerResult, hfs []harnessFile,
 			}
 		}
 	}
+	for _, h := range sel {
+		if n, seen := reachByHarness[h.name]; seen && n == 0 && !vacReported[h.name] {
+			vacReported[h.name] = true
+			machinery = append(machinery, fmt.Sprintf("%s: vacuous — no assertion reached on any path (%s)", h.name, unsupByHarness[h.name]))
+		}
+	}
+	printed := map[string]bool{}
 	for _, l := range lines {
+		if strings.HasPrefix(l, "KNOWN-FINDING") {
+			if printed[l] {
+				continue
+			}
+			printed[l] = true
+		}
 		fmt.Println(l)
 	}
 	for _, m := range machinery {
